@@ -96,8 +96,12 @@ func (dec *tomlDecoder) decodeKeyValuesIntoMap(rootMap *CandidateNode, tomlNode 
 }
 
 func (dec *tomlDecoder) createInlineTableMap(tomlNode *toml.Node) (*CandidateNode, error) {
-	content := make([]*CandidateNode, 0)
 	log.Debug("createInlineTableMap")
+	// every pair goes into the one map, so that dotted keys with a common prefix (b.c, b.d) share their table
+	inlineMap := &CandidateNode{
+		Kind: MappingNode,
+		Tag:  "!!map",
+	}
 
 	iterator := tomlNode.Children()
 	for iterator.Next() {
@@ -106,23 +110,12 @@ func (dec *tomlDecoder) createInlineTableMap(tomlNode *toml.Node) (*CandidateNod
 			return nil, fmt.Errorf("only keyvalue pairs are supported in inlinetables, got %v instead", child.Kind)
 		}
 
-		keyValues := &CandidateNode{
-			Kind: MappingNode,
-			Tag:  "!!map",
-		}
-
-		if err := dec.processKeyValueIntoMap(keyValues, child); err != nil {
+		if err := dec.processKeyValueIntoMap(inlineMap, child); err != nil {
 			return nil, err
 		}
-
-		content = append(content, keyValues.Content...)
 	}
 
-	return &CandidateNode{
-		Kind:    MappingNode,
-		Tag:     "!!map",
-		Content: content,
-	}, nil
+	return inlineMap, nil
 }
 
 func (dec *tomlDecoder) createArray(tomlNode *toml.Node) (*CandidateNode, error) {
